@@ -4,6 +4,7 @@ from __future__ import annotations
 import nt
 from common import rng
 from props import _notes
+from common import exc_name  # noqa: E402
 
 
 def run(ctx):
@@ -47,7 +48,7 @@ def run(ctx):
         def notes_digest(c):
             kind, val = outcome(nt.case_text(c))
             if kind == "raise":
-                return "raised:" + type(val).__name__
+                return "raised:" + exc_name(val)
             tr = [t for _, dd in val.instrument_tracks.items() for _, t in dd.items()][0]
             return hashlib.sha256(repr([(int(e.tick), e.note.name) for e in tr.note_events]).encode()).hexdigest()[:20]
         base_d = notes_digest(case)
